@@ -224,6 +224,8 @@ type sbReq struct {
 	epoch  int
 	acked  bool
 	stored []byte
+	segOK  bool // its own flush uploaded a segment ...
+	idxOK  bool // ... and an index: the request's callback comes from a non-empty flush
 }
 
 func (r *sbReq) last() int64 { return r.base + int64(int32(binary.BigEndian.Uint32(r.raw[23:27]))) }
@@ -239,10 +241,16 @@ type sbExec struct {
 	reqs    []*sbReq
 	logsEp  map[*storage.PartitionLog]bool
 	shown   map[int64][]byte // offset -> record batch bytes a Fetch returned for it
-	fail    string
-	failKey string
-	tags    map[string]bool
-	maxAck  int64
+	// C05: every value passed to store.UpdateOffsets, in the order the puts land
+	cbSeq     int
+	cbBirth   map[int]int  // tid -> sequence number at which its UpdateOffsets call appeared
+	cbNE      map[int]bool // ... issued after a non-empty flush of that request
+	lastBirth int          // birth number of the call that wrote the current store value
+	lastNE    bool
+	fail      string
+	failKey   string
+	tags      map[string]bool
+	maxAck    int64
 }
 
 func (x *sbExec) setFail(k, w string) {
@@ -430,6 +438,61 @@ func (x *sbExec) oracle(after string) {
 	}
 }
 
+// noteCallbacks records, after an action, which UpdateOffsets calls have newly appeared.
+func (x *sbExec) noteCallbacks() {
+	for t := 0; t < sbNT; t++ {
+		if x.has(fmt.Sprintf("cb:%d", t)) {
+			if _, ok := x.cbBirth[t]; !ok {
+				x.cbSeq++
+				x.cbBirth[t] = x.cbSeq
+				r := x.running[t]
+				x.cbNE[t] = r != nil && r.segOK && r.idxOK
+			}
+		} else {
+			delete(x.cbBirth, t)
+			delete(x.cbNE, t)
+		}
+	}
+}
+
+// landCallback lets thread t's store.UpdateOffsets proceed and evaluates C05 on the value it
+// writes: not below the previous next_offset, not above 1 + the last offset of this
+// partition's indexed S3 segments. A decrease is classified by its structural cause.
+func (x *sbExec) landCallback(a sbAct) bool {
+	key := fmt.Sprintf("cb:%d", a.T)
+	x.w.mu.Lock()
+	v := x.w.pend[key].v
+	x.w.mu.Unlock()
+	birth, ne := x.cbBirth[a.T], x.cbNE[a.T]
+	prev, perr := x.inner.NextOffset(context.Background(), sbTopic, sbPart)
+	for t := 0; t < sbNT; t++ {
+		if t != a.T && x.has(fmt.Sprintf("cb:%d", t)) {
+			x.tags["callbacks-overlap"] = true
+		}
+	}
+	x.release(key, a.Ok)
+	synctest.Wait()
+	delete(x.cbBirth, a.T)
+	delete(x.cbNE, a.T)
+	x.noteCallbacks()
+	if !a.Ok || perr != nil {
+		return true
+	}
+	if v+1 < prev {
+		k := "hw-regressed"
+		if x.lastBirth > birth { // a call issued LATER (later commit / later look) reached the store first
+			if ne && x.lastNE {
+				k = "hw-callback-reorder"
+			} else {
+				k = "hw-empty-flush-publish-reorder"
+			}
+		}
+		x.setFail(k, fmt.Sprintf("store.UpdateOffsets wrote next_offset %d over %d (request t=%d; this call was issued as #%d, the value it overwrote came from call #%d)", v+1, prev, a.T, birth, x.lastBirth))
+	}
+	x.lastBirth, x.lastNE = birth, ne
+	return true
+}
+
 func (x *sbExec) fetch(off int64) {
 	req := &kmsg.FetchRequest{MaxWaitMillis: 0, Topics: []kmsg.FetchRequestTopic{{Topic: sbTopic,
 		Partitions: []kmsg.FetchRequestTopicPartition{{Partition: sbPart, FetchOffset: off, PartitionMaxBytes: 1 << 20}}}}}
@@ -493,6 +556,17 @@ func (x *sbExec) do(a sbAct) bool {
 		if a.K == "no" || a.K == "ct" {
 			x.tags["first-touch-gated"] = true
 		}
+		if r := x.running[a.T]; r != nil && a.Ok {
+			if a.K == "seg" {
+				r.segOK = true
+			}
+			if a.K == "idx" {
+				r.idxOK = true
+			}
+		}
+		if a.K == "cb" {
+			return x.landCallback(a)
+		}
 		x.release(key, a.Ok)
 	case "fetch":
 		// only once the partition's log is registered: otherwise the fetch joins the init
@@ -521,6 +595,7 @@ func (x *sbExec) do(a sbAct) bool {
 		x.w.mu.Unlock()
 		x.drain()
 		x.running = [sbNT]*sbReq{}
+		x.cbBirth, x.cbNE = map[int]int{}, map[int]bool{}
 		x.newHandler()
 		x.tags["crash"] = true
 		synctest.Wait()
@@ -554,6 +629,7 @@ func (x *sbExec) do(a sbAct) bool {
 		return false
 	}
 	synctest.Wait()
+	x.noteCallbacks()
 	for t := 0; t < sbNT; t++ {
 		if x.running[t] != nil && !x.running[t].done && !x.has(fmt.Sprintf("seg:%d", t)) && !x.has(fmt.Sprintf("idx:%d", t)) && !x.has(fmt.Sprintf("cb:%d", t)) &&
 			!x.has(fmt.Sprintf("no:%d", t)) && !x.has(fmt.Sprintf("ct:%d", t)) {
@@ -606,7 +682,7 @@ func sbRun(t *testing.T, cs sbCase) (string, string, map[string]bool, int) {
 	n := 0
 	synctest.Test(t, func(t *testing.T) {
 		x := &sbExec{t: t, cs: cs, w: &sbWorld{objs: map[string][]byte{}, pend: map[string]*sbGate{}, dead: map[int]bool{}, gateInit: cs.GateInit},
-			tags: map[string]bool{}, maxAck: -1, shown: map[int64][]byte{}}
+			tags: map[string]bool{}, maxAck: -1, shown: map[int64][]byte{}, cbBirth: map[int]int{}, cbNE: map[int]bool{}, lastBirth: -1}
 		x.inner = metadata.NewInMemoryStore(defaultMetadata())
 		x.newHandler()
 		if cs.Foreign {
@@ -638,6 +714,9 @@ func sbGen(r *vRand, maxActs int) sbCase {
 	marker := byte(1)
 	mkRaw := func() []byte {
 		c := int32(r.Range(1, 3))
+		if r.Chance(35) {
+			c = int32(r.Range(4, 10))
+		}
 		marker++
 		return sbBatch(c-1, c, r.Range(1, 12), marker)
 	}
@@ -712,15 +791,18 @@ func TestVerifStorageBroker(t *testing.T) {
 	}
 	rep := vNewReport(prop, "real handler.handleProduce (acks=-1) x 2-3 concurrent producers on partition 1 of a fresh auto-created topic (concurrent first touch with gated NextOffset/CreateTopic in 30% of the cases; foreign objects of partitions 10 and 13 in S3 in 50%), blocking fake S3 uploads with outcomes, delayed/failing UpdateOffsets on the real InMemoryStore, real handleFetch at any point incl. during an upload, crash = new handler over the same S3 + store (restart through the real getPartitionLog with the store behind S3 by any amount); non-trivial = a request parked behind another one, a fault, a crash, a gated first touch or a fetch during an upload")
 	relevant := func(key string) bool {
+		if key == "second-partition-log" { // violated assumption of the shared model, for every property
+			return true
+		}
 		switch prop {
 		case "C05":
-			return key == "hw-ahead-of-s3"
+			return strings.HasPrefix(key, "hw-")
 		case "C02":
-			return key == "offset-assigned-twice" || key == "offset-reuse-after-restart" || key == "acked-batch-not-in-s3" || key == "second-partition-log"
+			return key == "offset-assigned-twice" || key == "offset-reuse-after-restart" || key == "acked-batch-not-in-s3"
 		case "C06":
-			return key != "hw-ahead-of-s3" && key != "second-partition-log" && key != "offset-assigned-twice"
+			return !strings.HasPrefix(key, "hw-") && key != "offset-assigned-twice"
 		default:
-			return key == "acked-batch-not-in-s3" || key == "acked-unreadable-after-restart" || key == "second-partition-log"
+			return key == "acked-batch-not-in-s3" || key == "acked-unreadable-after-restart"
 		}
 	}
 	runOne := func(cs sbCase, label string) {
@@ -747,7 +829,11 @@ func TestVerifStorageBroker(t *testing.T) {
 			if f2 == "" || k2 != key {
 				shr, f2 = cs, fail
 			}
-			rep.Fail(prop+":broker:"+key, "broker-"+key, f2, shr)
+			rkey := "broker-" + key
+			if key == "hw-callback-reorder" || key == "hw-empty-flush-publish-reorder" {
+				rkey = key // the two open C05 findings, reproduced through the real handler
+			}
+			rep.Fail(prop+":broker:"+key, rkey, f2, shr)
 		}
 	}
 	if rc := vReplayCase(); rc != nil {
@@ -776,6 +862,10 @@ func TestVerifStorageBroker(t *testing.T) {
 			// of them while the other one's S3 PUT is in flight
 			{GateInit: true, Plan: []sbAct{P(0, b(1)), P(1, b(2)), G("no", 0, true), G("no", 1, true), G("ct", 0, true), G("no", 0, true), G("ct", 1, true), G("no", 1, true),
 				G("seg", 0, true), G("idx", 0, true), G("seg", 1, true), G("idx", 1, true), G("cb", 0, true), G("cb", 1, true), G("seg", 1, true), G("idx", 1, true), G("cb", 1, true), FE(0), CR}},
+			{GateInit: true, Plan: []sbAct{P(0, sbBatch(9, 10, 3, 0x31)), P(1, sbBatch(4, 5, 3, 0x32)), G("no", 0, true), G("no", 1, true), G("ct", 0, true), G("no", 0, true), G("ct", 1, true), G("no", 1, true),
+				G("seg", 0, true), G("idx", 0, true), G("seg", 1, true), G("idx", 1, true), G("cb", 0, true), G("cb", 1, true), G("seg", 1, true), G("idx", 1, true), G("cb", 1, true), FE(0), CR}},
+			{GateInit: true, Foreign: true, Plan: []sbAct{P(0, sbBatch(2, 3, 3, 0x33)), P(1, sbBatch(6, 7, 3, 0x34)), G("no", 0, true), G("ct", 1, true), G("no", 1, true), G("seg", 1, true), G("ct", 0, true), G("no", 0, true),
+				G("idx", 1, true), G("cb", 1, true), G("seg", 0, true), G("idx", 0, true), G("cb", 0, true), G("cb", 1, true), FE(0), CR}},
 			// Fetch while a produce is between AppendBatch and the end of its flush, then the broker dies
 			{Plan: []sbAct{P(0, b(1)), FE(0), G("seg", 0, true), FE(0), G("idx", 0, true), G("cb", 0, true), FE(0), P(1, b(2)), FE(1), FE(0), CR,
 				P(2, b(3)), G("seg", 2, true), G("idx", 2, true), G("cb", 2, true), FE(1)}},
